@@ -84,6 +84,20 @@ def gen_streams(rng, tier):
                        rng.choice(fg.DEVICES + [3]), 48, 5]) + bytes(rng.randrange(256) for _ in range(rng.randint(0, 8)))
                 for _ in range(rng.randint(1, 4)))
         yield "noise", s + (fg.mk(25) if rng.random() < 0.5 else b"")
+    # 6b. length-boundary runts: consistent "frames" of total length 7..12 and 998..1003
+    for _ in range(30 if quick else 600):
+        for total in [7, 8, 9, 10, 11, 12] + ([998, 999, 1000, 1001, 1002, 1003] if rng.random() < (0.1 if quick else 0.3) else []):
+            yield "runt", fg.runt(rng, total) + fg.mk(25) + fg.mk(25)
+    # 6c. damaged start byte with a start delimiter elsewhere in the header and the checksum patched to match
+    for _ in range(120 if quick else 4000):
+        pl = fg.salted_payload(rng, rng.choice([0, 1, 3, 94 if rng.random() < 0.3 else 2]))
+        et, ev = rng.choice([48, 0x68]), rng.choice([5, 0x68])
+        fr = bytearray(fg.mk(rng.choice(fg.FRAME_TYPES), pl, rng.choice([86, 0]), rng.choice(fg.DEVICES), et, ev))
+        x = rng.choice([0, 0x16, 0x69, 0xE8, rng.randrange(256)])
+        if x != 0x68:
+            fr[-2] ^= 0x68 ^ x
+            fr[0] = x
+        yield "badstart", bytes(fr) + (fg.mk(25) if rng.random() < 0.5 else b"")
     # 7. random mixed streams
     for _ in range(300 if quick else 30000):
         parts = []
